@@ -20,13 +20,14 @@ STATIC = "static (SHADOW) planning cannot be imported here; plan-following and g
 PROPERTY_NOTES = {
     'C01': dict(assumptions=[S['S1'], S['S3'], S['S4'], MACHINE_RUN, ALG,
                              "stability of 'this allocation process holds machine m' under the segments of other processes follows from their proved frames (each moves only its own machine); the pairwise stability VCs are not generated"],
-                not_covered=["GreedySchedulingFromPlan (generator expression over the finished map) is not under contract"]),
+                not_covered=[]),
     'C02': dict(assumptions=[S['S1'], S['S3'], MACHINE_RUN, "list order is abstracted to multisets (positions only where a loop indexes a list)"],
                 not_covered=["'no reservation outstanding when a simulation ends' (needs a link between reservations and queued observations)"]),
     'C03': dict(assumptions=[NX, S['S2'], "every in-tree algorithm iterates its own loops atomically (S1)"],
-                not_covered=["GreedySchedulingFromPlan.run", "the same-machine clause 'start >= recorded finish of the predecessor' (needs intra-step order, S7)"]),
+                not_covered=["for GreedySchedulingFromPlan the precedence clause is in terms of task ids (unique ids assumed)",
+                             "the same-machine clause 'start >= recorded finish of the predecessor' (needs intra-step order, S7)"]),
     'C04': dict(assumptions=[ENV_RUN, ALG, MACHINE_RUN, S['S1'], S['S3']],
-                not_covered=["termination (C05)", "'the task table has exactly one row per executed task' (pandas construction in finished_task_time_data / _generate_final_task_data is an assumed contract)"]),
+                not_covered=["termination (C05)", "the task table: finished_task_time_data has one column per task of the finished map (unique ids assumed); its transposition and decoration in _generate_final_task_data are assumed (pandas)"]),
     'C06': dict(assumptions=[S['S2'], "float arithmetic exact", "the delay model's caller-side contract (result >= runtime) is proved under C15"],
                 not_covered=["monotonicity is the monotonicity of max(1, max(floor(w/s), floor(d/b))), stated in DESIGN.md and not a separate obligation"]),
     'C07': dict(assumptions=[S['S1'], S['S2'], "observation durations and (rounded) data rates are whole numbers (entity typing invariant, checked at every write)"],
@@ -43,7 +44,7 @@ PROPERTY_NOTES = {
     'C13': dict(assumptions=[S['S1'], S['S3'], PD], not_covered=["causal order across processes is by the spawn relation (not a discharged obligation)"]),
     'C14': dict(assumptions=[NX, "str() is injective on node identifiers and s + t determines t for a fixed prefix (assumed string axioms)",
                              "_workflow_to_nx (file I/O) returns the graph described by the file"],
-                not_covered=["'tasks listed in a topological order' (list order is abstracted); static (SHADOW) planning"]),
+                not_covered=["static (SHADOW) planning"]),
     'C15': dict(assumptions=[NP, "runtimes are whole numbers of timesteps, probabilities lie in [0, 1]"],
                 not_covered=["'never fails' for dist='uniform' (recorded known finding)"]),
     'C16': dict(assumptions=["Config.__init__ (file I/O) is trusted; configured values are whole multiples of the unit; float arithmetic exact"], not_covered=[]),
